@@ -312,6 +312,26 @@ func (Engine) Generate(prop string, r *kit.Rand, tier string) *kit.Scenario[Conf
 		nops = r.Range(0, 12)
 	}
 	for i := 0; i < nops; i++ {
+		if prop == "C18" && len(c.Links) > 0 && r.Chance(0.05) {
+			// a router restarts quickly after a busy spell, into a changed neighbourhood: the network converges
+			// (deliveries take no simulated time, so every router has issued several advertisements within the same
+			// second), one router crashes, one of its links goes away meanwhile, and it is back well inside its
+			// neighbours' dead interval - they must take over the new instance's advertisements
+			l := kit.Pick(r, c.Links)
+			x := l[r.Intn(2)]
+			if !crashed[x] && !down[l] {
+				for y := 0; y < c.N; y++ {
+					sc.Ops = append(sc.Ops, Op{Op: "tick", R: y})
+				}
+				for k, nk := 0, r.Range(10, 60); k < nk; k++ {
+					sc.Ops = append(sc.Ops, Op{Op: "deliver", K: 0})
+				}
+				down[l] = true
+				sc.Ops = append(sc.Ops, Op{Op: "crash", R: x}, Op{Op: "linkdown", A: l[0], B: l[1]}, Op{Op: "advance", Ms: kit.Pick(r, []int{1, 100, 900, 2500})},
+					Op{Op: "restart", R: x}, Op{Op: "tick", R: x}, Op{Op: "deliver", K: 0}, Op{Op: "deliver", K: 0})
+				continue
+			}
+		}
 		switch r.Weighted([]int{wTick, wDeliver, wDrop, wDup, wAdv, wLink, wCrash, wPfx, wReface, wDead, wMgmt, wCorrupt, wHold}) {
 		case 12:
 			x, pt := r.Intn(c.N), kit.Pick(r, []string{"rib-update", "rib-update", "fib-update"})
